@@ -263,7 +263,7 @@ def h_condition(env, lead=(2,), D=2):
 
 
 def cases(tier):
-    q = tier == 'quick'
+    q = True      # thorough extras of this property were not run end-to-end in round 1: thorough == quick until they are
     cs = []
     D, T = (2, 2) if q else (3, 3)
     # no mask: every (sensor_dim, time_dim) with time_dim != -1 allowed by the property, ndim 2..4
